@@ -35,6 +35,10 @@ def build_model(shape_edges, nprov, seed):
     mods = []
     for i in range(nprov + 1):
         name = f"p{i}s{seed % 997}" if i < nprov else f"cons{seed % 997}"
+        # a project module may be named like one of the modules FORD knows as external by default (a serial `mpi` stub
+        # shipped with the code ...): the project's own module is the one that is used
+        if i < nprov and i == seed % 4 and (seed // 4) % 3 == 0:
+            name = ["mpi", "omp_lib", "openacc", "mpi_f08"][(seed // 12) % 4]
         m = {"name": name, "idx": i, "default": rng.choice(["public", "public", "private"]), "entities": [], "uses": [], "explicit_public": [],
              "consumer": i == nprov}
         if not m["consumer"]:
